@@ -200,6 +200,30 @@ def oracle(c):
         if a != b:
             bad.append("node %d (%s): created %s, final %s" % (ni, c["kinds"][ni], a, b))
             if first is None: first = (len(c["ops"]), ni)
+    # "extended independently": the environment a guest sees when instantiated with a module configuration is the one
+    # its own chain of WithEnv calls built (overwriting keeps the position, a new key is appended) - whatever was
+    # derived from or instantiated with its ancestors before
+    envs, nn = {}, 0
+    for opi, (op, ob) in enumerate(zip(c["ops"], c["obs"])):
+        if op[0] == "inst":
+            want = envs.get(op[1])
+            if want is not None and len(ob) == 3 and ob[1] != [x for kv in want for x in kv]:
+                bad.append("op %d %s: the guest sees the environment %s, the configuration (node %d) was built with %s" %
+                           (opi, op, ob[1], op[1], [x for kv in want for x in kv]))
+                if first is None: first = (opi, op[1])
+            continue
+        if ob != [] or op[0] not in ("newM", "newS", "newF", "newR", "M", "R", "F", "S"): continue   # panicked derivations and newrt create no node
+        if nn < len(c["kinds"]):
+            if op[0] == "newM": envs[nn] = []
+            elif op[0] == "M" and op[1] in envs:
+                e = list(envs[op[1]])
+                if op[2] == "Env":
+                    k, v = op[3], op[4]
+                    i = next((j for j, kv in enumerate(e) if kv[0] == k), None)
+                    if i is None: e.append((k, v))
+                    else: e[i] = (k, v)
+                envs[nn] = e
+        nn += 1
     return bad, first
 
 
